@@ -6,10 +6,10 @@
 package c16
 
 import (
-	"strconv"
 	"context"
 	"fmt"
 	"slices"
+	"strconv"
 	"strings"
 	"testing"
 	"time"
@@ -30,6 +30,7 @@ var (
 )
 
 var tagPool = []string{"_c16_n1", "_c16_n2", "_c16_n3", "_c16_n4", "_c16_n5", "_c16_n6"}
+
 // "root" is a legal handle name too: with no root logger configured it stands for the built-in one
 var handlePool = []string{"h1", "h2", "root", "h3"}
 
@@ -515,7 +516,49 @@ func TestC16_Exhaustive(t *testing.T) {
 			}
 		}
 	}
-	space := fmt.Sprintf("all operation sequences of length <= %d over %d operations", L, k)
+	// Longer histories with a fixed beginning: a configuration that was live (and destroyed, or
+	// not), or a Refresh that failed late in each of its variants, followed by every sequence of
+	// length <= L-1. The state a short sequence cannot build up - "had a live configuration
+	// once" - is where stale bindings live.
+	var prefixes [][]op
+	for _, c := range []string{"RefreshA", "RefreshB"} {
+		prefixes = append(prefixes, []op{{K: c}, {K: "Destroy"}}, []op{{K: c}, {K: "LogTag", Level: 2}, {K: "Destroy"}})
+	}
+	for v := 0; v < 5; v++ {
+		prefixes = append(prefixes, []op{{K: "RefreshB"}, {K: "Destroy"}, {K: "RefreshInvalidLate", Var: v}})
+		prefixes = append(prefixes, []op{{K: "RefreshInvalidLate", Var: v}})
+	}
+	for pi, pre := range prefixes {
+		for n := 1; n <= L-1; n++ {
+			cnt := 1
+			for i := 0; i < n; i++ {
+				cnt *= k
+			}
+			for code := 0; code < cnt; code++ {
+				idx++
+				if idx%shards != shard {
+					continue
+				}
+				ops := append([]op{}, pre...)
+				c := code
+				for i := 0; i < n; i++ {
+					ops = append(ops, op{K: opNames[c%k], Level: (code + i) % len(lvls), Var: (code/7 + pi) % 5})
+					c /= k
+				}
+				total++
+				nt++
+				msg, hang := runSeq(ops, theWorld)
+				if hang {
+					vk.HardFail("c16-hang", map[string]any{"sequence": seqString(ops)}, "C16: %s", msg)
+				}
+				if msg != "" {
+					p := vk.SaveCase("c16", map[string]any{"sequence": seqString(ops), "error": msg})
+					t.Fatalf("VERIF-VIOLATION C16 (exhaustive): %s (case %s)", msg, p)
+				}
+			}
+		}
+	}
+	space := fmt.Sprintf("all operation sequences of length <= %d over %d operations, and every sequence of length <= %d after each of %d fixed beginnings", L, k, L-1, len(prefixes))
 	vk.EvalN(total)
 	vk.NonTrivialBulk(space, nt)
 	vk.Exhaustive(space, true)
@@ -526,7 +569,7 @@ func TestC16_Exhaustive(t *testing.T) {
 // TestRegress_C16: shrunk failures found before the fix: commits.
 func TestRegress_C16(t *testing.T) {
 	for _, ops := range [][]op{
-		{{K: "WriteHandle"}},                                     // handle before any Refresh: nil logger
+		{{K: "WriteHandle"}}, // handle before any Refresh: nil logger
 		{{K: "RefreshA"}, {K: "Destroy"}, {K: "LogTag", Level: 0}}, // tag still bound to the destroyed sync logger
 		{{K: "RefreshB"}, {K: "Destroy"}, {K: "LogTag", Level: 5}}, // async: send on closed channel
 		{{K: "RefreshB"}, {K: "Destroy"}, {K: "WriteHandle"}},
